@@ -19,18 +19,20 @@ CONSTANTS MaxC,       \* containers ever created
           BigKeys,    \* keys too large to be stored inline in a map (externally stored keys)
           Wraps,      \* wrapper levels for children, e.g. {0, 1}
           Kinds,      \* kinds of child containers: "A" array, "M" map, "C" map with a composite type (compact encoding when inlined)
-          Persist, EmitDepth
+          Types,      \* type infos SetType may install (>= 100: composite types, which use the compact encoding when inlined)
+          Persist, EmitDepth,
+          RareOff     \* TRUE in exhaustive (breadth-first) configurations: every event is enabled in every state
 
 VARIABLES cont,    \* [1..MaxC -> [kind, par, el]]  kind "A" | "M" | "none" (not created / disposed); par = 0: root or detached
           live,    \* containers with a live handle object
           nextVid, nextId, committed, hasc, hist
 nvars == <<cont, live, nextVid, nextId, committed, hasc, hist>>
 
-None == [kind |-> "none", par |-> 0, el |-> <<>>]
+None == [kind |-> "none", par |-> 0, el |-> <<>>, ti |-> 0]
 S(id, sz, k) == [t |-> "s", id |-> id, sz |-> sz, w |-> 0, k |-> k]
 C(vid, w, k) == [t |-> "c", id |-> vid, sz |-> 0, w |-> w, k |-> k]
 
-Init == /\ cont = [v \in 1..MaxC |-> IF v = 1 THEN [kind |-> "A", par |-> 0, el |-> <<>>] ELSE None]
+Init == /\ cont = [v \in 1..MaxC |-> IF v = 1 THEN [kind |-> "A", par |-> 0, el |-> <<>>, ti |-> 0] ELSE None]
         /\ live = {1} /\ nextVid = 2 /\ nextId = 1 /\ committed = cont /\ hasc = FALSE
         /\ hist = << <<"root", 1, "A">> >>
 
@@ -68,7 +70,7 @@ InsS(h, i, sz) == /\ cont[h].kind = "A" /\ Len(cont[h].el) < MaxE
                   /\ cont' = [cont EXCEPT ![h].el = InsAt(@, i, S(nextId, sz, 0))] /\ nextId' = nextId + 1
                   /\ UNCHANGED <<live, nextVid>> /\ Keep /\ H(<<"n.ins", h, i, nextId, sz, 0>>)
 AppC(h, kind, w) == /\ cont[h].kind = "A" /\ Len(cont[h].el) < MaxE /\ nextVid <= MaxC /\ Depth(h) < MaxDepth
-                    /\ cont' = [cont EXCEPT ![h].el = Append(@, C(nextVid, w, 0)), ![nextVid] = [kind |-> kind, par |-> h, el |-> <<>>]]
+                    /\ cont' = [cont EXCEPT ![h].el = Append(@, C(nextVid, w, 0)), ![nextVid] = [kind |-> kind, par |-> h, el |-> <<>>, ti |-> 0]]
                     /\ live' = live \cup {nextVid} /\ nextVid' = nextVid + 1 /\ UNCHANGED nextId /\ Keep
                     /\ H(<<"n.appc", h, nextVid, kind, w>>)
 SetS(h, i, sz, keep) == /\ cont[h].kind = "A"
@@ -101,7 +103,7 @@ MSetS(h, k, sz, keep) ==
   /\ nextId' = nextId + 1 /\ UNCHANGED nextVid /\ Keep
 MSetC(h, k, kind, w) ==
   /\ cont[h].kind \in {"M", "C"} /\ ~HasK(h, k) /\ Len(cont[h].el) < MaxE /\ nextVid <= MaxC /\ Depth(h) < MaxDepth
-  /\ cont' = [cont EXCEPT ![h].el = Append(@, C(nextVid, w, k)), ![nextVid] = [kind |-> kind, par |-> h, el |-> <<>>]]
+  /\ cont' = [cont EXCEPT ![h].el = Append(@, C(nextVid, w, k)), ![nextVid] = [kind |-> kind, par |-> h, el |-> <<>>, ti |-> 0]]
   /\ live' = live \cup {nextVid} /\ nextVid' = nextVid + 1 /\ UNCHANGED nextId /\ Keep
   /\ H(<<"n.msetc", h, k, KS(k), nextVid, kind, w>>)
 MRem(h, k, keep) ==
@@ -123,7 +125,8 @@ Children(h) == {cont[h].el[i].id : i \in {j \in 1..Len(cont[h].el) : cont[h].el[
 Iter(h) == /\ Children(h) # {}
            /\ live' = (live \ UNION {Sub(c) : c \in Children(h)}) \cup Children(h)
            /\ UNCHANGED <<cont, nextVid, nextId>> /\ Keep /\ H(<<"n.iter", h>>)
-SetType(h, ti) == /\ UNCHANGED <<cont, live, nextVid, nextId>> /\ Keep /\ H(<<"n.settype", h, ti>>)
+SetType(h, ti) == /\ cont[h].ti # ti /\ cont' = [cont EXCEPT ![h].ti = ti]       \* ti = 0: the type the container was created with
+                  /\ UNCHANGED <<live, nextVid, nextId>> /\ Keep /\ H(<<"n.settype", h, ti>>)
 \* ---- bulk pop through any live handle (children are disposed)
 Pop(h) == /\ Len(cont[h].el) > 0
           /\ LET gone == UNION {Sub(cont[h].el[i].id) : i \in {j \in 1..Len(cont[h].el) : cont[h].el[j].t = "c"}} IN
@@ -139,7 +142,7 @@ Crash == /\ Persist /\ hasc /\ cont' = committed
          /\ UNCHANGED <<nextVid, nextId, committed, hasc>> /\ H(<<"crash">>)
 
 \* TLC's simulator picks a disjunct uniformly: rarer events are enabled only every n-th step
-Rare(n) == Len(hist) % n = 0
+Rare(n) == RareOff \/ Len(hist) % n = 0
 Next ==
   \/ \E h \in live, s \in Sizes : AppS(h, s)
   \/ \E h \in live, s \in Sizes : \E i \in 0..Len(cont[h].el) : InsS(h, i, s)
@@ -154,7 +157,7 @@ Next ==
   \/ \E h \in live, k \in 1..NKeys : MGet(h, k)
   \/ \E h \in live, k \in 1..NKeys, d \in Detached, w \in Wraps : MAttach(h, k, d, w)
   \/ Rare(3) /\ \E h \in live : Iter(h)
-  \/ Rare(5) /\ \E h \in live, ti \in {43, 44, 45} : SetType(h, ti)
+  \/ Rare(5) /\ \E h \in live, ti \in Types : SetType(h, ti)
   \/ Rare(9) /\ \E h \in live : Pop(h)
   \/ Rare(4) /\ ((\E m \in {"det", "nondet"}, w \in {1, 3} : Commit(m, w)) \/ Drop \/ Crash)
 
